@@ -137,7 +137,22 @@ func checkShutdownTop(c *report.Ctx) {
 	}
 	s1, k1 := share(rtArg)
 	s2, k2 := share(agArg)
-	c.Check("R-WIRE", name+"/deadlines", "the runtime gets a share (x 0.3) of the available time, the extensions all of it, both counted from the same start", k1 && k2 && s1 && !s2, fpos(f), 2, "runtime deadline scaled: %v; agents deadline unscaled: %v", s1, !s2)
+	// both deadlines are offsets from one and the same reading of the clock (the time the runtime phase
+	// uses up is not granted to the extensions a second time)
+	base := func(v ssa.Value) ssa.Value {
+		cl, _ := an.CallOf(v)
+		if cl == nil || an.Callee(cl) != "time.Time.Add" {
+			return nil
+		}
+		return an.Strip(cl.Call.Args[0], false)
+	}
+	b1, b2 := base(rtArg), base(agArg)
+	sameStart := b1 != nil && b1 == b2
+	if sameStart {
+		cl, _ := an.CallOf(b1)
+		sameStart = cl != nil && an.Callee(cl) == "time.Now"
+	}
+	c.Check("R-WIRE", name+"/deadlines", "the runtime gets a share (x 0.3) of the available time, the extensions all of it, both counted from the same start", k1 && k2 && s1 && !s2 && sameStart, fpos(f), 3, "runtime deadline scaled: %v; agents deadline unscaled: %v; both are offsets of the same time.Now() reading: %v", s1, !s2, sameStart)
 }
 
 func checkShutdownRuntime(c *report.Ctx) {
